@@ -4,6 +4,7 @@ import (
 	"fmt"
 	"math"
 	"strings"
+	"sync"
 	"time"
 
 	tally "github.com/uber-go/tally/v4"
@@ -272,6 +273,73 @@ func c14Scenarios(tier string) []*Scenario {
 				}
 			}
 			return "", "", "ok"
+		}
+		out = append(out, sc)
+	}
+	// the reporter's object pools (tally.ObjectPool: tag slices are taken out and never given back, so every long-lived
+	// reporter runs its tag slice pool dry) started at their last entries: getters only, and getters next to a
+	// get-and-put thread. A Get must never block - the pool allocates when it has nothing to hand out - and no object
+	// is handed to two holders at once.
+	for _, pv := range []struct {
+		name          string
+		size, getters int
+		putter        bool
+	}{{"one-left-two-getters", 1, 2, false}, {"two-left-two-getters-and-a-get-put", 2, 2, true}, {"one-left-getter-and-two-get-puts", 1, 1, true}} {
+		pv := pv
+		sc := &Scenario{Property: "C14", Name: "M6-object-pool-at-its-last-entries-" + pv.name, BoundSet: true, Bound: tierInt(tier, 3, 4)}
+		sc.Body = func(x *Run) {
+			p := tally.NewObjectPool(pv.size)
+			made := 0
+			var hmu sync.Mutex // the harness' own bookkeeping (the free-running race pass runs this body too)
+			p.Init(func() interface{} { hmu.Lock(); defer hmu.Unlock(); made++; return &[1]int{made} })
+			holder := map[interface{}]int{}
+			take := func(who int) interface{} {
+				v := p.Get()
+				if v == nil {
+					x.failf("pool-returned-nil", "Get returned nil to thread %d", who)
+					return nil
+				}
+				hmu.Lock()
+				defer hmu.Unlock()
+				if h, ok := holder[v]; ok {
+					x.failf("pooled-object-handed-out-twice", "object %v is held by thread %d and was handed to thread %d", v, h, who)
+				}
+				holder[v] = who
+				return v
+			}
+			var ths []*rt.Thread
+			for i := 0; i < pv.getters; i++ {
+				i := i
+				ths = append(ths, rt.GoNamed(fmt.Sprintf("getter%d", i), func() { take(i) }))
+			}
+			if pv.putter {
+				n := 1
+				if pv.getters == 1 {
+					n = 2
+				}
+				for k := 0; k < n; k++ {
+					k := k
+					ths = append(ths, rt.GoNamed(fmt.Sprintf("getput%d", k), func() {
+						if v := take(10 + k); v != nil {
+							hmu.Lock()
+							delete(holder, v)
+							hmu.Unlock()
+							p.Put(v)
+						}
+					}))
+				}
+			}
+			for _, t := range ths {
+				t.Join()
+			}
+			x.Vals["done"] = true
+			x.Vals["made"] = made
+		}
+		sc.Check = func(x *Run, o *rt.Outcome) (string, string, string) {
+			if x.Vals["done"] != true {
+				return "scenario-did-not-finish", "", "viol"
+			}
+			return "", "", fmt.Sprintf("ok: %v objects allocated in all", x.Vals["made"])
 		}
 		out = append(out, sc)
 	}
